@@ -607,9 +607,21 @@ def parse_ctx(scratch):
     return _parse_ctx
 
 
+_ext_ctx = None
+
+
+def ext_ctx(scratch, extension_tags):
+    """a context created with extension tags (the permitted-parent table is derived from them at construction)"""
+    global _ext_ctx
+    if _ext_ctx is None:
+        from wikitextprocessor import Wtp
+        _ext_ctx = Wtp(db_path=os.path.join(scratch, "ext.db"), extension_tags=extension_tags)
+    return _ext_ctx
+
+
 def impl_parse_many(case, scratch):
     """case: texts -> canonical trees (one context, start_page per text)"""
-    ctx = parse_ctx(scratch)
+    ctx = ext_ctx(scratch, case["extension_tags"]) if case.get("extension_tags") else parse_ctx(scratch)
     outs = []
     for t in case["texts"]:
         ctx.start_page(case.get("title", "Tt"))
@@ -676,6 +688,16 @@ def extract_test_pages():
 
 def impl_test_pages(case, scratch):
     return {"outcome": "ok", "pages": extract_test_pages()}
+
+
+# ---------------------------------------------------------------- C04/C12: includable part of a template page
+def impl_template_body(case, scratch):
+    from wikitextprocessor import Wtp
+    ctx = Wtp(db_path=os.path.join(scratch, "tb.db"))
+    try:
+        return {"outcome": "ok", "outs": [ctx._template_to_body("T", t) for t in case["texts"]]}
+    finally:
+        close_ctx(ctx)
 
 
 # ---------------------------------------------------------------- C03
